@@ -38,6 +38,10 @@ pub enum Kind {
     Pct,
     /// round robin with a quantum in steps
     RoundRobin,
+    /// mostly sequential, but the thread that reaches `stall_site` for the
+    /// `stall_nth` time is set aside for `stall_len` steps (or until nobody else
+    /// can run): everybody else works inside that one window
+    Stall,
 }
 
 #[derive(Clone, Debug)]
@@ -50,6 +54,13 @@ pub struct Strategy {
     pub quantum: u32,
     pub prios: Vec<u32>,
     pub change_at: Vec<u64>,
+    pub stall_site: u32,
+    pub stall_nth: u32,
+    pub stall_len: u64,
+    // state of the stall strategy
+    pub stall_hits: u32,
+    pub stall_thread: usize,
+    pub stall_until: u64,
 }
 
 impl Strategy {
@@ -61,7 +72,25 @@ impl Strategy {
             ),
             Kind::Pct => format!("pct(d={})", self.change_at.len()),
             Kind::RoundRobin => format!("rr(q={})", self.quantum),
+            Kind::Stall => format!(
+                "stall(site={},nth={},len={},p={}/{})",
+                self.stall_site, self.stall_nth, self.stall_len, self.num, self.den
+            ),
         }
+    }
+
+    /// As `swarm`, but 3 runs in 10 use the stall strategy at one of `sites`.
+    pub fn swarm_with_stall(rng: &mut Rng, expected_steps: u64, sites: &[u32]) -> Strategy {
+        let mut s = Strategy::swarm(rng, expected_steps);
+        if !sites.is_empty() && rng.chance(3, 10) {
+            s.kind = Kind::Stall;
+            s.num = 1;
+            s.den = *rng.pick(&[2u32, 8, 32]);
+            s.stall_site = *rng.pick(sites);
+            s.stall_nth = *rng.pick(&[1u32, 1, 1, 2, 2, 3, 5, 9]);
+            s.stall_len = *rng.pick(&[6u64, 20, 60, 400, 1_000_000]);
+        }
+        s
     }
 
     /// Swarm choice of a strategy from the run's PRNG. `expected_steps` scales
@@ -76,6 +105,12 @@ impl Strategy {
             quantum: 1,
             prios: Vec::new(),
             change_at: Vec::new(),
+            stall_site: 0,
+            stall_nth: 0,
+            stall_len: 0,
+            stall_hits: 0,
+            stall_thread: usize::MAX,
+            stall_until: 0,
         };
         match rng.below(10) {
             0..=4 => {
@@ -185,6 +220,12 @@ impl Inner {
                 quantum: 1,
                 prios: vec![],
                 change_at: vec![],
+                stall_site: 0,
+                stall_nth: 0,
+                stall_len: 0,
+                stall_hits: 0,
+                stall_thread: usize::MAX,
+                stall_until: 0,
             },
             hot: cold,
             decisions: Vec::new(),
@@ -337,6 +378,31 @@ impl Inner {
                     }
                 }
                 best
+            }
+            Kind::Stall => {
+                if me_ok && site == self.strategy.stall_site && self.strategy.stall_thread == usize::MAX {
+                    self.strategy.stall_hits += 1;
+                    if self.strategy.stall_hits == self.strategy.stall_nth {
+                        self.strategy.stall_thread = me;
+                        self.strategy.stall_until = self.steps.saturating_add(self.strategy.stall_len);
+                    }
+                }
+                let stalled = if self.steps < self.strategy.stall_until { self.strategy.stall_thread } else { usize::MAX };
+                let avail: Vec<usize> = cands.iter().copied().filter(|&t| t != stalled).collect();
+                if avail.is_empty() {
+                    // nobody else can run: the stalled thread goes on
+                    self.strategy.stall_until = 0;
+                    return cands[0];
+                }
+                if me_ok && me != stalled && !self.rng.chance(self.strategy.num as u64, self.strategy.den as u64) {
+                    return me;
+                }
+                let others: Vec<usize> = avail.iter().copied().filter(|&t| t != me).collect();
+                if others.is_empty() {
+                    avail[0]
+                } else {
+                    *self.rng.pick(&others)
+                }
             }
             Kind::RoundRobin => {
                 if me_ok && self.quantum_left > 0 {
